@@ -18,6 +18,7 @@ import (
 
 	"verif/lib/ev"
 	"verif/lib/fsx"
+	"verif/lib/refignore"
 	"verif/lib/world"
 )
 
@@ -283,8 +284,10 @@ func checkOrder(w world.World) error {
 			continue
 		}
 		var sig []string
+		rules := refignore.Rules("")
 		for _, n := range p.Tree().Sorted() {
-			if n.Kind == "file" {
+			// what the bundle keeps: files not removed by the (built-in) ignore rules
+			if n.Kind == "file" && !refignore.Excluded(rules, n.Path, false) {
 				sig = append(sig, n.Path+"="+n.Content)
 			}
 		}
